@@ -13,21 +13,31 @@ inductive Nud where
   deriving DecidableEq, Repr, Inhabited
 inductive Led where | none | infix deriving DecidableEq, Repr, Inhabited
 
+/-- comment attached to a node: `pre` = /* */ before it, otherwise # after it -/
+structure Meta where
+  pre : Bool
+  val : List Nat
+  deriving Repr, Inhabited, DecidableEq
+
 inductive Node where
   | mk (name : String) (tok : Option Tok) (binding : Nat) (nud : Nud) (led : Led) (children : List (Option Node))
+      (metas : List Meta)
   deriving Repr, Inhabited
 
 namespace Node
-def name : Node → String | mk n _ _ _ _ _ => n
-def tok : Node → Option Tok | mk _ t _ _ _ _ => t
-def binding : Node → Nat | mk _ _ b _ _ _ => b
-def nud : Node → Nud | mk _ _ _ n _ _ => n
-def led : Node → Led | mk _ _ _ _ l _ => l
-def children : Node → List (Option Node) | mk _ _ _ _ _ c => c
+def name : Node → String | mk n _ _ _ _ _ _ => n
+def tok : Node → Option Tok | mk _ t _ _ _ _ _ => t
+def binding : Node → Nat | mk _ _ b _ _ _ _ => b
+def nud : Node → Nud | mk _ _ _ n _ _ _ => n
+def led : Node → Led | mk _ _ _ _ l _ _ => l
+def children : Node → List (Option Node) | mk _ _ _ _ _ c _ => c
+def metas : Node → List Meta | mk _ _ _ _ _ _ m => m
 def add (n : Node) (c : Option Node) : Node :=
-  match n with | mk a t b x l cs => mk a t b x l (cs ++ [c])
+  match n with | mk a t b x l cs m => mk a t b x l (cs ++ [c]) m
+def addMeta (n : Node) (ms : List Meta) : Node :=
+  match n with | mk a t b x l cs m => mk a t b x l cs (m ++ ms)
 def setChildren (n : Node) (cs : List (Option Node)) : Node :=
-  match n with | mk a t b x l _ => mk a t b x l cs
+  match n with | mk a t b x l _ m => mk a t b x l cs m
 def tokId (n : Node) : Option Nat := n.tok.map (·.id)
 end Node
 
@@ -122,35 +132,43 @@ def attempt {α : Type} (m : M α) : M (Except Err α) :=
   ExceptT.mk (do let r ← m.run; pure (Except.ok r))
 
 def instanceOf (braceBlock : Nat) (id : Nat) (t : Option Tok) : Node :=
-  if id = T_LBRACE ∧ braceBlock > 0 then Node.mk "" t 0 .block .none []
+  if id = T_LBRACE ∧ braceBlock > 0 then Node.mk "" t 0 .block .none [] []
   else match table id with
-    | some (n, b, x, l) => Node.mk n t b x l []
-    | none => Node.mk "?" t 0 .none .none []
+    | some (n, b, x, l) => Node.mk n t b x l [] []
+    | none => Node.mk "?" t 0 .none .none [] []
 
 def mkNode (id : Nat) (t : Option Tok) : M Node := do
   return instanceOf (← get).braceBlock id t
 
 def errAt (kind : String) (t : Tok) : Err := .perr kind t.line t.col
 
-/-- p.next(): the next non-comment token as a node -/
-def nextNode : M Node := do
+/-- the comment tokens in front of the next real token: (pre comments, post comments, rest) -/
+def splitComments : List Tok → List Meta × List Meta × List Tok
+  | t :: ts =>
+    if t.id = 3 then let (a, b, r) := splitComments ts; (⟨true, t.val⟩ :: a, b, r)
+    else if t.id = 4 then let (a, b, r) := splitComments ts; (a, ⟨false, t.val⟩ :: b, r)
+    else ([], [], t :: ts)
+  | [] => ([], [], [])
+
+/-- p.next(): the next non-comment token as a node (carrying the pre comments) and the post
+    comments, which Go appends to the node that is being left (`p.node`) -/
+def nextNode : M (Node × List Meta) := do
   let p ← get
-  let rec skip : List Tok → List Tok
-    | t :: ts => if t.id = 3 ∨ t.id = 4 then skip ts else t :: ts
-    | [] => []
-  match skip p.toks with
+  let (pre, post, rest) := splitComments p.toks
+  match rest with
   | [] => set { p with toks := [] }; throw (.perr "Unexpected end" 0 0)
   | t :: ts =>
     set { p with toks := ts }
     if t.id = 0 then throw (errAt "Lexical error" t)
     else match table t.id with
-      | some _ => mkNode t.id (some t)
+      | some _ => return ((← mkNode t.id (some t)).addMeta pre, post)
       | none => throw (errAt "Unknown term" t)
 
-/-- `p.node, err = p.next()` : on error p.node becomes nil -/
-def advance : M Unit := do
+/-- `p.node, err = p.next()` : on error p.node becomes nil.  Returns the post comments that
+    belong to the node which was current before the call. -/
+def advance : M (List Meta) := do
   match ← attempt nextNode with
-  | .ok n => modify fun p => { p with node := some n }
+  | .ok (n, post) => modify (fun p => { p with node := some n }); pure post
   | .error e => modify (fun p => { p with node := none }); throw e
 
 def cur : M Node := do
@@ -168,15 +186,16 @@ def skipToken (ids : List Nat) : M Unit := do
   let t ← tokOf n
   if !(ids.contains t.id) then
     if t.id = T_EOF then throw (errAt "Unexpected end" t) else throw (errAt "Unexpected term" t)
-  advance
+  let _ ← advance
 
 /-- returns the accepted node -/
 def acceptChild (id : Nat) : M Node := do
   let current := (← get).node
-  advance
+  let post ← advance
   match current with
   | none => throw .panic
   | some c =>
+    let c := c.addMeta post
     let t ← tokOf c
     if t.id = id then pure c else throw (errAt "Unexpected term" t)
 
@@ -217,8 +236,8 @@ def run : Nat → Nat → M Node
   | 0, _ => throw .fuel
   | f+1, rbp => do
     let n? := (← get).node           -- n := p.node  (no dereference yet)
-    advance
-    let n ← (match n? with | some n => pure n | none => throw Err.panic)
+    let post ← advance
+    let n ← (match n? with | some n => pure (n.addMeta post) | none => throw Err.panic)
     if n.nud = .none then throw (errAt "Term cannot start an expression" (← tokOf n))
     let left ← nudOf f n
     loopLed f rbp left
@@ -234,7 +253,8 @@ def loopLed : Nat → Nat → Node → M Node
         if lt.line < nt.line then pure left
         else throw (errAt "Term can only start an expression" nt)
       else
-        advance
+        let post ← advance
+        let nx := nx.addMeta post
         -- ldInfix
         let right ← run f nx.binding
         loopLed f rbp ((nx.add (some left)).add (some right))
@@ -486,7 +506,7 @@ def parse (input : List Nat) : Option Node × Option Err :=
     -- p.node = p.next()
     match ← attempt advance with
     | .error e => return (none, some e)
-    | .ok _ => pure ()
+    | .ok _ => pure ()      -- post comments before the first token are dropped (p.node == nil)
     match ← attempt (run fuel 0) with
     | .error .panic => throw .panic
     | .error .fuel => throw .fuel
